@@ -44,6 +44,12 @@ type ReadCfg struct {
 	// AfterUTF8Error: the application answers ErrInvalidUTF8 by discarding
 	// the rest of the message and carrying on with the next one.
 	AfterUTF8Error bool
+	// SkipEmpty: units announced with Length 0 are not read at all before the
+	// next NextFrame (there is nothing to receive or discard).
+	SkipEmpty bool
+	// ProbeAfterError: after NextFrame refused a frame, the application calls
+	// Read once more; what that returns is recorded in Outcome.AfterErr.
+	ProbeAfterError bool
 }
 
 func (c ReadCfg) Name() string {
@@ -92,13 +98,14 @@ type ContRec struct {
 
 // Outcome is everything an application observed.
 type Outcome struct {
-	Recs    []Rec
-	Conts   []ContRec
-	Open    *Rec   // unit being read when the terminal error occurred
-	Err     error  // terminal error (always non-nil when the app returns: streams end)
-	ErrAt   string // API call that returned it
-	Calls   int
-	ZeroRds int
+	Recs     []Rec
+	Conts    []ContRec
+	Open     *Rec   // unit being read when the terminal error occurred
+	Err      error  // terminal error (always non-nil when the app returns: streams end)
+	ErrAt    string // API call that returned it
+	Calls    int
+	ZeroRds  int
+	AfterErr []byte // bytes a Read handed out after NextFrame had refused a frame
 }
 
 var bufSizes = [...]int{4096, 1, 2, 3, 5, 8, 16, 64, 512, 70000}
@@ -240,11 +247,23 @@ func appReader(r *eng.Run, p *Pipe, cfg ReadCfg, o *Outcome) {
 		h, err := rd.NextFrame()
 		if err != nil {
 			o.Err, o.ErrAt = err, "NextFrame"
+			if cfg.ProbeAfterError && err != io.EOF {
+				buf := make([]byte, 64)
+				n, _ := rd.Read(buf)
+				if n > 0 {
+					o.AfterErr = append(o.AfterErr, buf[:n]...)
+				}
+			}
 			return
 		}
 		rec := &Rec{Kind: 'M', Op: byte(h.OpCode), Hdr: h, HasHdr: true, HdrAt: p.Consumed()}
 		if h.OpCode.IsControl() {
 			rec.Kind = 'C'
+		}
+		if cfg.SkipEmpty && h.Length == 0 && h.Fin {
+			rec.EndAt = p.Consumed()
+			o.Recs = append(o.Recs, *rec)
+			continue
 		}
 		allow := !cfg.NoDiscard
 		if allow && cfg.MustRead != nil && cfg.MustRead(len(topLevel(o.Recs))) {
